@@ -1,4 +1,7 @@
 import DinoProofs.Lemmas.Regrid
+import DinoProofs.Lemmas.RegridCyclic
+import Dino.RegridDrv
+import Mathlib.Data.Rat.Floor
 import Mathlib.Order.Monotone.Defs
 import Mathlib.Order.Interval.Set.Defs
 import Mathlib.Analysis.SpecialFunctions.Trigonometric.Basic
@@ -13,7 +16,22 @@ All statements are about the executable model `Dino.Regrid` (tied to
 an arbitrary linearly ordered field `K`, coordinate vectors of any length and fields of any size.
 `sin` enters as an arbitrary function `g`, (strictly) monotone on `[-hp, hp]`
 (`latWeights_conservative_sin` instantiates `g = Real.sin`, `hp = π / 2`); Python's `%` enters as
-`md`, the identity on `[0, P)`.
+`md`: the identity on `[0, P)` in `lonWeights_conservative_of_points`, the reduction into `[0, P)`
+by an integer number of periods in the statements about offset grids
+(`lonWeights_conservative_of_offset_points`; `pyModRat_reduces` shows that the exact `%` of the
+driver is such a function).
+
+Statements that hold by unfolding a definition (they mirror the code and carry no content beyond
+the correspondence check; not to be counted as proved properties): the first conjunct of
+`verticalWeights_rows` and of `lonWeights_rows` (the normalisation `weights /= sum`), and
+`noskip_nan_iff` (the `jnp.where(jnp.isclose(...))` decision rule).
+
+Hypotheses that the code does not check and that the claim must name:
+`regridHybridToSigma_conservation` needs the hybrid boundaries `a / sp + b` to be sorted (`hs`) —
+true of `a`, `b` sets whose pressure increases with the index at that surface pressure — and the
+σ boundaries sorted (`ht`); the longitude statements need the cell-width condition
+`gs + gt ≤ P/2` (outside it the code is *not* conservative: `stated_precondition_insufficient`,
+known finding `lon-conservation-wide-cells`).
 
 Totalised division never makes a statement true: every normalisation is accompanied by the
 hypothesis (or the proof) that the row sum is not zero, and the vertical statements quantify over
@@ -341,7 +359,8 @@ theorem intervalOverlap_col_sum (t0 : K) (tr sb : List K) (ht : (t0 :: tr).Pairw
   exact sum_latOv_cells id (rel_of_mem_cells hs hsm) t0 tr ht
 
 /-- rows of `conservative_regrid_weights` with a non-zero overlap: non-negative entries summing
- to one.  (Rows without overlap are `0/0` in the code — NaN — and are excluded.) -/
+ to one.  (Rows without overlap are `0/0` in the code — NaN — and are excluded.)
+ The first conjunct is the definition of the normalisation (`rfl`): it carries no content. -/
 theorem verticalWeights_rows (sb tb : List K) :
     verticalWeights sb tb = (intervalOverlap sb tb).map (fun r => r.map (· / r.sum)) ∧
     ∀ r ∈ intervalOverlap sb tb, r.sum ≠ 0 →
@@ -407,7 +426,11 @@ theorem vertical_conservation (s0 t0 : K) (sr tr : List K) (hs : (s0 :: sr).Pair
   exact List.map_congr_left hcol
 
 /-- `regrid_hybrid_to_sigma` on one column: the σ-thickness-weighted sum over the range covered by
- the hybrid levels is conserved (hybrid boundaries `a / sp + b` and σ boundaries sorted) -/
+ the hybrid levels is conserved.
+ **Unchecked hypothesis `hs`:** the hybrid boundaries `a / sp + b` at this surface pressure are
+ sorted (non-decreasing).  The code never checks it (`a` alone is not monotone in real hybrid
+ sets, so sortedness depends on `sp`); for unsorted boundaries the statement is not claimed.
+ `ht`: the σ boundaries are sorted (what `SigmaCoordinates.__post_init__` enforces). -/
 theorem regridHybridToSigma_conservation (a b : List K) (sp : K) (s0 t0 : K) (sr tr : List K)
     (f r out : List K) (hb : hybridSigmaBounds a b sp = s0 :: sr)
     (hs : (s0 :: sr).Pairwise (· ≤ ·)) (ht : (t0 :: tr).Pairwise (· ≤ ·))
@@ -422,6 +445,25 @@ theorem regridHybridToSigma_conservation (a b : List K) (sp : K) (s0 t0 : K) (sr
   rw [hb] at hout
   exact vertical_conservation s0 t0 sr tr hs ht f out hout
 
+/-- non-vacuity of `regridHybridToSigma_conservation`: three hybrid layers with a non-zero top
+ pressure (`a = [10, 20, 30, 0]`, `b = [0, 1/10, 1/2, 1]`, `sp = 100`: boundaries
+ `[1/10, 3/10, 4/5, 1]`, sorted) onto the σ boundaries `[0, 1/4, 1/2, 1]`; the top σ layer is
+ only partly covered -/
+example : ∃ r, regridHybridToSigma [(10 : ℚ), 20, 30, 0] [0, 1 / 10, 1 / 2, 1] 100
+      [0, 1 / 4, 1 / 2, 1] [7, -2, 5] = some r ∧
+    dot ((cells [(0 : ℚ), 1 / 4, 1 / 2, 1]).map fun t => covered t (1 / 10) 1) r
+      = dot ((cells [(1 / 10 : ℚ), 3 / 10, 4 / 5, 1]).map fun s => covered s 0 1) [7, -2, 5] := by
+  have hr : regridHybridToSigma [(10 : ℚ), 20, 30, 0] [0, 1 / 10, 1 / 2, 1] 100
+      [0, 1 / 4, 1 / 2, 1] [7, -2, 5]
+      = some (matvec (verticalWeights (hybridSigmaBounds [(10 : ℚ), 20, 30, 0]
+          [0, 1 / 10, 1 / 2, 1] 100) [0, 1 / 4, 1 / 2, 1]) [7, -2, 5]) := by
+    rw [regridHybridToSigma, if_neg (by decide)]
+  refine ⟨_, hr, ?_⟩
+  exact regridHybridToSigma_conservation [10, 20, 30, 0] [0, 1 / 10, 1 / 2, 1] 100 (1 / 10) 0
+    [3 / 10, 4 / 5, 1] [1 / 4, 1 / 2, 1] [7, -2, 5] _ _ (by decide +kernel) (by decide +kernel)
+    (by decide +kernel) hr (agreesWhereCovered_self _ _ (by
+      simp [matvec, verticalWeights, normRows, intervalOverlap, kmat]))
+
 /-- non-vacuity: the source range `[1/10, 9/10]` lies inside the target range `[0, 1]`;
  the middle target layer is fully covered, the outer ones partly -/
 example : dot ((cells [(0 : ℚ), 1 / 4, 1 / 2, 1]).map fun t => covered t (1 / 10) (9 / 10))
@@ -434,7 +476,8 @@ example : dot ((cells [(0 : ℚ), 1 / 4, 1 / 2, 1]).map fun t => covered t (1 / 
 /-! ## T16.3 longitude: periodic overlaps -/
 
 /-- `conservative_longitude_weights`: non-negative overlaps, and every row with a non-zero
- overlap sum is normalised to one — by definition, on every input -/
+ overlap sum is normalised to one — by definition, on every input.
+ The first conjunct is the definition of the normalisation (`rfl`): it carries no content. -/
 theorem lonWeights_rows (md : K → K → K) (P : K) (src tgt : List K) {W : List (List K)}
     (hW : lonWeights md P src tgt = some W) :
     W = (lonOverlap md P tgt src).map (fun r => r.map (· / r.sum)) ∧
@@ -734,6 +777,202 @@ example : ∃ W, lonWeights (fun x _ => x) (12 : ℚ) [1, 4, 7, 10] [1 / 2, 3, 5
     (by decide +kernel) (by norm_num) (by decide +kernel) (by decide +kernel) (by decide +kernel)
     (by decide +kernel) (by decide +kernel) (by norm_num)
 
+/-! ### offset grids: `% period` rotates the coordinate vector -/
+
+/-- `lonWeights_conservative` when the cells that the code builds are such partitions *up to a
+ permutation* (for offset grids: a cyclic rotation, see `lonCells_offset_rotate`): row sums,
+ column sums and therefore conservation do not depend on the order of the cells. -/
+theorem lonWeights_conservative_perm (md : K → K → K) {P : K} (hP : 0 < P) (src tgt : List K)
+    (a0 b0 : K) (ra rb : List K)
+    (hs : src.Pairwise (· < ·)) (ht : tgt.Pairwise (· < ·))
+    (hT : (lonCells md P tgt).Perm (cells (a0 :: ra)))
+    (hS : (lonCells md P src).Perm (cells (b0 :: rb)))
+    (hA : (a0 :: ra).Pairwise (· < ·)) (hB : (b0 :: rb).Pairwise (· ≤ ·))
+    (hAl : ra.getLastD a0 = a0 + P) (hBl : rb.getLastD b0 = b0 + P)
+    (hw : ∀ x ∈ cells (a0 :: ra), ∀ y ∈ cells (b0 :: rb), (x.2 - x.1) + (y.2 - y.1) ≤ P / 2)
+    (hr : a0 - P ≤ b0 ∧ b0 ≤ a0 + P) :
+    ∃ W, lonWeights md P src tgt = some W ∧
+      (∀ row ∈ W, (∀ w ∈ row, 0 ≤ w) ∧ row.sum = 1) ∧
+      ((lonCells md P tgt).map fun c => c.2 - c.1).sum = P ∧
+      ((lonCells md P src).map fun c => c.2 - c.1).sum = P ∧
+      ∀ x : List K, dot ((lonCells md P tgt).map fun c => c.2 - c.1) (matvec W x)
+        = dot ((lonCells md P src).map fun c => c.2 - c.1) x := by
+  have hW : lonWeights md P src tgt = some (normRows (lonOverlap md P tgt src)) := by
+    unfold lonWeights
+    rw [if_pos]
+    rw [Bool.and_eq_true, increasing_iff, increasing_iff]; exact ⟨hs, ht⟩
+  obtain ⟨hrow, hcol, -⟩ := lon_conservation hP a0 b0 ra rb (pairwise_le_of_lt hA) hB hAl hBl
+    hw hr
+  have hrow' : ∀ x ∈ lonCells md P tgt,
+      ((lonCells md P src).map (periodicOv P x)).sum = x.2 - x.1 := fun x hx => by
+    rw [(hS.map (periodicOv P x)).sum_eq]; exact hrow x (hT.mem_iff.mp hx)
+  have hcol' : ∀ y ∈ lonCells md P src,
+      ((lonCells md P tgt).map (periodicOv P · y)).sum = y.2 - y.1 := fun y hy => by
+    rw [(hT.map (periodicOv P · y)).sum_eq]; exact hcol y (hS.mem_iff.mp hy)
+  have hpos : ∀ x ∈ lonCells md P tgt, x.2 - x.1 ≠ 0 := fun x hx =>
+    (sub_pos.mpr (rel_of_mem_cells hA (hT.mem_iff.mp hx))).ne'
+  refine ⟨_, hW, ?_, ?_, ?_, ?_⟩
+  · intro row hrowm
+    obtain ⟨_, hrows⟩ := lonWeights_rows md P src tgt hW
+    simp only [normRows, List.mem_map] at hrowm
+    obtain ⟨r, hr', rfl⟩ := hrowm
+    have hne : r.sum ≠ 0 := by
+      simp only [lonOverlap, kmat, List.mem_map] at hr'
+      obtain ⟨x, hxm, rfl⟩ := hr'
+      rw [hrow' x hxm]; exact hpos x hxm
+    exact (hrows r hr').2 hne
+  · rw [(hT.map fun c => c.2 - c.1).sum_eq, sum_cells_telescope (fun v => v), hAl]; ring
+  · rw [(hS.map fun c => c.2 - c.1).sum_eq, sum_cells_telescope (fun v => v), hBl]; ring
+  · intro x
+    exact kernel_conservation (periodicOv P) (lonCells md P tgt) (lonCells md P src)
+      (fun c => c.2 - c.1) (fun c => c.2 - c.1) x hrow' hpos hcol'
+
+/-- **`% period` rotates the vector, and the cells with it.**  For at least two strictly
+ increasing points spanning less than a period (a `Grid` with any `longitude_offset`: negative,
+ beyond one cell, beyond `2π`, the `[-π, π)` layout) with circular gaps at most `g`:
+ `points % P` is the cyclic rotation by some `k` of a strictly increasing vector `q` inside
+ `[0, P)` with circular gaps at most `g`, on which `%` is the identity, and the cells the code
+ builds from the points are the cells of `q` rotated by `k`. -/
+theorem lonCells_offset_rotate (md : K → K → K) {P : K} (hP : 0 < P)
+    (hmd : ∀ v, ∃ n : ℤ, md v P = v - n * P ∧ 0 ≤ md v P ∧ md v P < P)
+    (p0 p1 : K) (r : List K) (g : K)
+    (hinc : (p0 :: p1 :: r).Pairwise (· < ·)) (hper : r.getLastD p1 - p0 < P)
+    (hgap : ∀ d ∈ diffs (p0 :: p1 :: r), d ≤ g) (hwrap : P - (r.getLastD p1 - p0) ≤ g) :
+    ∃ (q0 q1 : K) (qr : List K) (k : ℕ),
+      (p0 :: p1 :: r).map (md · P) = (q0 :: q1 :: qr).rotate k ∧
+      (q0 :: q1 :: qr).Pairwise (· < ·) ∧ 0 ≤ q0 ∧ qr.getLastD q1 < P ∧
+      (∀ v ∈ q0 :: q1 :: qr, md v P = v) ∧
+      (∀ d ∈ diffs (q0 :: q1 :: qr), d ≤ g) ∧ P - (qr.getLastD q1 - q0) ≤ g ∧
+      lonCells md P (p0 :: p1 :: r) = (lonCells md P (q0 :: q1 :: qr)).rotate k := by
+  obtain ⟨q, k, hrot, hlen, hq, hrange, hch, hwr⟩ := map_mod_eq_rotate md hP hmd p0 (p1 :: r) hinc
+    (by rw [List.getLastD_cons]; linarith) g ((diffs_le_iff_isChain g _).mp hgap)
+    (by rw [List.getLastD_cons]; linarith)
+  obtain ⟨q0, q1, qr, rfl⟩ : ∃ q0 q1 qr, q = q0 :: q1 :: qr := by
+    match q, hlen with
+    | q0 :: q1 :: qr, _ => exact ⟨q0, q1, qr, rfl⟩
+  have hid : ∀ v ∈ q0 :: q1 :: qr, md v P = v := fun v hv => by
+    have := mod_eq_sub hP hmd v 0 (by simpa using (hrange v hv).1) (by simpa using (hrange v hv).2)
+    simpa using this
+  have hlast : qr.getLastD q1 ∈ q0 :: q1 :: qr := by
+    rw [List.getLastD_eq_getLast?]
+    have : (q0 :: q1 :: qr).getLast? = some ((qr.getLast?).getD q1) := by
+      rw [List.getLast?_cons, List.getLast?_cons]; simp
+    exact List.mem_of_getLast? this
+  refine ⟨q0, q1, qr, k, hrot, hq, (hrange q0 (by simp)).1, (hrange _ hlast).2, hid,
+    (diffs_le_iff_isChain g _).mpr hch, ?_, ?_⟩
+  · have := hwr q0 (by simp) (qr.getLastD q1) (by
+      rw [List.getLast?_cons, List.getLast?_cons, List.getLastD_eq_getLast?]; simp)
+    linarith
+  · rw [lonCells_eq_cellsOf, hrot, cellsOf_rotate, lonCells_eq_cellsOf]
+    congr 2
+    have : (q0 :: q1 :: qr).map (md · P) = (q0 :: q1 :: qr).map id := List.map_congr_left hid
+    rw [this, List.map_id]
+
+/-- the weights of offset grids are the weights of the sorted reduced vectors with rows rotated
+ like the target points and columns like the source points -/
+theorem lonWeights_offset_rotate (md : K → K → K) (P : K) (src tgt qs qt : List K) (j k : ℕ)
+    (hs : src.Pairwise (· < ·)) (ht : tgt.Pairwise (· < ·))
+    (hqs : qs.Pairwise (· < ·)) (hqt : qt.Pairwise (· < ·))
+    (hS : lonCells md P src = (lonCells md P qs).rotate j)
+    (hT : lonCells md P tgt = (lonCells md P qt).rotate k) :
+    lonWeights md P src tgt
+      = (lonWeights md P qs qt).map fun W => (W.map (·.rotate j)).rotate k := by
+  unfold lonWeights
+  rw [if_pos (by rw [Bool.and_eq_true, increasing_iff, increasing_iff]; exact ⟨hs, ht⟩),
+    if_pos (by rw [Bool.and_eq_true, increasing_iff, increasing_iff]; exact ⟨hqs, hqt⟩)]
+  simp only [Option.map_some, lonOverlap]
+  rw [hS, hT, kmat_rotate, normRows_rotate]
+
+/-- **Longitude, from the coordinate vectors of offset grids.**  Source and target longitudes
+ strictly increasing, at least two each, each spanning less than a period — anywhere on the real
+ line, so `% period` may rotate them — with circular gaps at most `gs` resp. `gt`,
+ `gs + gt ≤ P/2` (for equispaced grids with any `longitude_offset`: `1/n_s + 1/n_t ≤ 1/2`), and
+ `%` the reduction into `[0, P)` by an integer number of periods.  Then
+ `conservative_longitude_weights` succeeds, its entries are non-negative, its rows sum to one, the
+ cells of each grid tile one period, and the width-weighted sum is conserved. -/
+theorem lonWeights_conservative_of_offset_points (md : K → K → K) {P : K} (hP : 0 < P)
+    (hmd : ∀ v, ∃ n : ℤ, md v P = v - n * P ∧ 0 ≤ md v P ∧ md v P < P)
+    (s0 s1 t0 t1 : K) (sr tr : List K) (gs gt : K)
+    (hs : (s0 :: s1 :: sr).Pairwise (· < ·)) (ht : (t0 :: t1 :: tr).Pairwise (· < ·))
+    (hsp : sr.getLastD s1 - s0 < P) (htp : tr.getLastD t1 - t0 < P)
+    (hgs : ∀ d ∈ diffs (s0 :: s1 :: sr), d ≤ gs) (hws : P - (sr.getLastD s1 - s0) ≤ gs)
+    (hgt : ∀ d ∈ diffs (t0 :: t1 :: tr), d ≤ gt) (hwt : P - (tr.getLastD t1 - t0) ≤ gt)
+    (hg : gs + gt ≤ P / 2) :
+    ∃ W, lonWeights md P (s0 :: s1 :: sr) (t0 :: t1 :: tr) = some W ∧
+      (∀ row ∈ W, (∀ w ∈ row, 0 ≤ w) ∧ row.sum = 1) ∧
+      ((lonCells md P (t0 :: t1 :: tr)).map fun c => c.2 - c.1).sum = P ∧
+      ((lonCells md P (s0 :: s1 :: sr)).map fun c => c.2 - c.1).sum = P ∧
+      ∀ x : List K, dot ((lonCells md P (t0 :: t1 :: tr)).map fun c => c.2 - c.1) (matvec W x)
+        = dot ((lonCells md P (s0 :: s1 :: sr)).map fun c => c.2 - c.1) x := by
+  have hgs0 : 0 < gs := lt_of_lt_of_le (diffs_pos_of_pairwise hs (s1 - s0) (by simp))
+    (hgs (s1 - s0) (by simp))
+  have hgt0 : 0 < gt := lt_of_lt_of_le (diffs_pos_of_pairwise ht (t1 - t0) (by simp))
+    (hgt (t1 - t0) (by simp))
+  obtain ⟨u0, u1, ur, j, -, hu, hu0, hul, hidu, hgu, hwu, hcS⟩ :=
+    lonCells_offset_rotate md hP hmd s0 s1 sr gs hs hsp hgs hws
+  obtain ⟨v0, v1, vr, k, -, hv, hv0, hvl, hidv, hgv, hwv, hcT⟩ :=
+    lonCells_offset_rotate md hP hmd t0 t1 tr gt ht htp hgt hwt
+  have hLu : u0 ≤ ur.getLastD u1 := by
+    have := le_getLastD_of_pairwise u0 (u1 :: ur) (pairwise_le_of_lt hu) u0 (by simp)
+    rwa [List.getLastD_cons] at this
+  have hLv : v0 ≤ vr.getLastD v1 := by
+    have := le_getLastD_of_pairwise v0 (v1 :: vr) (pairwise_le_of_lt hv) v0 (by simp)
+    rwa [List.getLastD_cons] at this
+  obtain ⟨rb, hS, hB, hBl, hwB⟩ := lonCells_partition md hP u0 u1 ur gs hidu hu
+    (by linarith) hgu hwu (by linarith)
+  obtain ⟨ra, hT, hA, hAl, hwA⟩ := lonCells_partition md hP v0 v1 vr gt hidv hv
+    (by linarith) hgv hwv (by linarith)
+  have hr : ((vr.getLastD v1 - P) + v0) / (1 + 1) - P ≤ ((ur.getLastD u1 - P) + u0) / (1 + 1) ∧
+      ((ur.getLastD u1 - P) + u0) / (1 + 1) ≤ ((vr.getLastD v1 - P) + v0) / (1 + 1) + P := by
+    rw [one_add_one_eq_two]; constructor <;> linarith
+  exact lonWeights_conservative_perm md hP (s0 :: s1 :: sr) (t0 :: t1 :: tr) _ _ ra rb hs ht
+    (by rw [hcT, hT]; exact List.rotate_perm _ _) (by rw [hcS, hS]; exact List.rotate_perm _ _)
+    hA (pairwise_le_of_lt hB) hAl hBl
+    (fun x hx y hy => by linarith [(hwA x hx).2, (hwB y hy).2]) hr
+
+/-- the exact `%` of the driver (`pyModRat`, Python's `x % p` on rationals) reduces into
+ `[0, P)` by an integer number of periods: the hypothesis `hmd` of the offset-grid statements -/
+theorem pyModRat_reduces {P : ℚ} (hP : 0 < P) :
+    ∀ v : ℚ, ∃ n : ℤ, pyModRat v P = v - n * P ∧ 0 ≤ pyModRat v P ∧ pyModRat v P < P := by
+  intro v
+  have e : pyModRat v P = v - P * ((v / P).floor : ℚ) := by
+    unfold pyModRat; rw [if_neg hP.ne']
+  have h1 : (((v / P).floor : ℤ) : ℚ) ≤ v / P := Rat.le_floor_iff.mp le_rfl
+  have h2 : v / P < ((v / P).floor : ℚ) + 1 := by
+    by_contra h
+    have h' : ((v / P).floor : ℚ) + 1 ≤ v / P := not_lt.mp h
+    have : ((v / P).floor + 1 : ℤ) ≤ (v / P).floor := Rat.le_floor_iff.mpr (by push_cast; exact h')
+    omega
+  rw [le_div_iff₀ hP] at h1
+  rw [div_lt_iff₀ hP] at h2
+  exact ⟨(v / P).floor, by rw [e]; ring, by rw [e]; linarith, by rw [e]; linarith⟩
+
+/-- non-vacuity (offset grids, the real `%`): 4 source longitudes in the `[-P/2, P/2)` layout and
+ 5 target longitudes whose last node lies beyond the period, on a circle of length 12 -/
+example : ∃ W, lonWeights pyModRat (12 : ℚ) [-6, -3, 0, 3] [7 / 2, 6, 8, 11, 14] = some W ∧
+    (∀ row ∈ W, (∀ w ∈ row, 0 ≤ w) ∧ row.sum = 1) ∧
+    ((lonCells pyModRat (12 : ℚ) [7 / 2, 6, 8, 11, 14]).map fun c => c.2 - c.1).sum = 12 ∧
+    ((lonCells pyModRat (12 : ℚ) [-6, -3, 0, 3]).map fun c => c.2 - c.1).sum = 12 ∧
+    ∀ x : List ℚ,
+      dot ((lonCells pyModRat (12 : ℚ) [7 / 2, 6, 8, 11, 14]).map fun c => c.2 - c.1) (matvec W x)
+        = dot ((lonCells pyModRat (12 : ℚ) [-6, -3, 0, 3]).map fun c => c.2 - c.1) x :=
+  lonWeights_conservative_of_offset_points pyModRat (by norm_num) (pyModRat_reduces (by norm_num))
+    (-6) (-3) (7 / 2) 6 [0, 3] [8, 11, 14] 3 3 (by decide +kernel) (by decide +kernel)
+    (by decide +kernel) (by decide +kernel) (by decide +kernel) (by decide +kernel)
+    (by decide +kernel) (by decide +kernel) (by norm_num)
+
+/-- in that example `%` really rotates both vectors (by 2 resp. 4 places), the cells and the
+ weight matrix with them; the source vector is *not* increasing after `%`, so
+ `lonWeights_conservative_of_points` does not apply to it -/
+example :
+    ([-6, -3, 0, 3] : List ℚ).map (pyModRat · 12) = ([0, 3, 6, 9] : List ℚ).rotate 2 ∧
+    ([7 / 2, 6, 8, 11, 14] : List ℚ).map (pyModRat · 12) = ([2, 7 / 2, 6, 8, 11] : List ℚ).rotate 1 ∧
+    lonCells pyModRat (12 : ℚ) [-6, -3, 0, 3] = (lonCells pyModRat 12 [0, 3, 6, 9]).rotate 2 ∧
+    lonWeights pyModRat (12 : ℚ) [-6, -3, 0, 3] [7 / 2, 6, 8, 11, 14]
+      = (lonWeights pyModRat 12 [0, 3, 6, 9] [2, 7 / 2, 6, 8, 11]).map
+          fun W => (W.map (·.rotate 2)).rotate 1 := by
+  decide +kernel
+
 /-! ## the two-dimensional regridder -/
 
 /-- **Horizontal conservation.**  If the longitude weights conserve the width-weighted sum and the
@@ -799,7 +1038,8 @@ theorem skipna_nan_iff (rtol atol : K) (ra rc : List K) (f : List (List (Option 
     exact ⟨h, hm⟩
 
 /-- `skipna=False`: an output cell is NaN exactly when the non-NaN weight is not within
- `atol + rtol·|1|` of one (`jnp.isclose(not_null_fraction, 1, rtol=1e-3)`) -/
+ `atol + rtol·|1|` of one (`jnp.isclose(not_null_fraction, 1, rtol=1e-3)`).
+ This unfolds the decision rule of the model (definitional); its content is the correspondence. -/
 theorem noskip_nan_iff (rtol atol : K) (ra rc : List K) (f : List (List (Option K))) :
     cellValue rtol atol false (cellMean ra rc f) (cellFrac ra rc f) = none
       ↔ atol + rtol * |1| < |cellFrac ra rc f - 1| := by
